@@ -257,7 +257,7 @@ package xy
 //@   floats real
 //@   lemmas mulCancel, mulCancel2, mulNonneg, mulMono
 //@   requires strideOf(layout) >= 2 && whole(len(ring), strideOf(layout)) && cnt(len(ring), strideOf(layout)) >= 4
-//@   ensures res <==> rccTurn(cells(ring), off(ring), rccPrev(cells(ring), off(ring), strideOf(layout), len(ring) - strideOf(layout), topIdx(cells(ring), off(ring), strideOf(layout), cnt(len(ring), strideOf(layout)) - 1), topIdx(cells(ring), off(ring), strideOf(layout), cnt(len(ring), strideOf(layout)) - 1)), topIdx(cells(ring), off(ring), strideOf(layout), cnt(len(ring), strideOf(layout)) - 1), rccNext(cells(ring), off(ring), strideOf(layout), len(ring) - strideOf(layout), topIdx(cells(ring), off(ring), strideOf(layout), cnt(len(ring), strideOf(layout)) - 1), topIdx(cells(ring), off(ring), strideOf(layout), cnt(len(ring), strideOf(layout)) - 1)))
+//@   ensures [local] res <==> rccTurn(cells(ring), off(ring), rccPrev(cells(ring), off(ring), strideOf(layout), len(ring) - strideOf(layout), topIdx(cells(ring), off(ring), strideOf(layout), cnt(len(ring), strideOf(layout)) - 1), topIdx(cells(ring), off(ring), strideOf(layout), cnt(len(ring), strideOf(layout)) - 1)), topIdx(cells(ring), off(ring), strideOf(layout), cnt(len(ring), strideOf(layout)) - 1), rccNext(cells(ring), off(ring), strideOf(layout), len(ring) - strideOf(layout), topIdx(cells(ring), off(ring), strideOf(layout), cnt(len(ring), strideOf(layout)) - 1), topIdx(cells(ring), off(ring), strideOf(layout), cnt(len(ring), strideOf(layout)) - 1)))
 //@   modifies nothing
 //@   decreases *
 //@   loop 1:
@@ -294,6 +294,9 @@ package xy
 //@   ensures calc.stride == old(calc.stride) && calc.layout == old(calc.layout) && calc.centSum == old(calc.centSum) && calc.cg3 == old(calc.cg3) && calc.triangleCent3 == old(calc.triangleCent3) && calc.basePt == old(calc.basePt)
 //@   modifies *calc, calc.cg3[0:2], calc.triangleCent3[0:2], calc.centSum[0:2]
 //@   at stmt11: assert p1[0] == pts[mul(m + 1, stride) - stride] && p1[1] == pts[mul(m + 1, stride) - stride + 1] && p2[0] == pts[mul(m + 1, stride)] && p2[1] == pts[mul(m + 1, stride) + 1]
+//@   at loop1.end: assert fanA(cells(pts), off(pts), stride, calc.basePt[0], calc.basePt[1], m) == fanA(cells(pts), off(pts), stride, calc.basePt[0], calc.basePt[1], m - 1) + ((pts[mul(m, stride) - stride] - calc.basePt[0]) * (pts[mul(m, stride) + 1] - calc.basePt[1]) - (pts[mul(m, stride)] - calc.basePt[0]) * (pts[mul(m, stride) - stride + 1] - calc.basePt[1]))
+//@   at loop1.end: assert fanC(cells(pts), off(pts), stride, calc.basePt[0], calc.basePt[1], 0, m) == fanC(cells(pts), off(pts), stride, calc.basePt[0], calc.basePt[1], 0, m - 1) + ((pts[mul(m, stride) - stride] - calc.basePt[0]) * (pts[mul(m, stride) + 1] - calc.basePt[1]) - (pts[mul(m, stride)] - calc.basePt[0]) * (pts[mul(m, stride) - stride + 1] - calc.basePt[1])) * (calc.basePt[0] + pts[mul(m, stride) - stride] + pts[mul(m, stride)])
+//@   at loop1.end: assert fanC(cells(pts), off(pts), stride, calc.basePt[0], calc.basePt[1], 1, m) == fanC(cells(pts), off(pts), stride, calc.basePt[0], calc.basePt[1], 1, m - 1) + ((pts[mul(m, stride) - stride] - calc.basePt[0]) * (pts[mul(m, stride) + 1] - calc.basePt[1]) - (pts[mul(m, stride)] - calc.basePt[0]) * (pts[mul(m, stride) - stride + 1] - calc.basePt[1])) * (calc.basePt[1] + pts[mul(m, stride) - stride + 1] + pts[mul(m, stride) + 1])
 //@   loop 1:
 //@     ghost m int = 0 step m + 1
 //@     ghost sg float64 = (isPositiveArea ? 0.0 - 1.0 : 1.0) step sg
@@ -316,6 +319,9 @@ package xy
 //@   ensures calc.stride == old(calc.stride) && calc.layout == old(calc.layout) && calc.centSum == old(calc.centSum) && calc.cg3 == old(calc.cg3) && calc.triangleCent3 == old(calc.triangleCent3) && calc.basePt == old(calc.basePt)
 //@   modifies *calc, calc.cg3[0:2], calc.triangleCent3[0:2], calc.centSum[0:2]
 //@   at stmt11: assert p1[0] == pts[mul(m + 1, stride) - stride] && p1[1] == pts[mul(m + 1, stride) - stride + 1] && p2[0] == pts[mul(m + 1, stride)] && p2[1] == pts[mul(m + 1, stride) + 1]
+//@   at loop1.end: assert fanA(cells(pts), off(pts), stride, calc.basePt[0], calc.basePt[1], m) == fanA(cells(pts), off(pts), stride, calc.basePt[0], calc.basePt[1], m - 1) + ((pts[mul(m, stride) - stride] - calc.basePt[0]) * (pts[mul(m, stride) + 1] - calc.basePt[1]) - (pts[mul(m, stride)] - calc.basePt[0]) * (pts[mul(m, stride) - stride + 1] - calc.basePt[1]))
+//@   at loop1.end: assert fanC(cells(pts), off(pts), stride, calc.basePt[0], calc.basePt[1], 0, m) == fanC(cells(pts), off(pts), stride, calc.basePt[0], calc.basePt[1], 0, m - 1) + ((pts[mul(m, stride) - stride] - calc.basePt[0]) * (pts[mul(m, stride) + 1] - calc.basePt[1]) - (pts[mul(m, stride)] - calc.basePt[0]) * (pts[mul(m, stride) - stride + 1] - calc.basePt[1])) * (calc.basePt[0] + pts[mul(m, stride) - stride] + pts[mul(m, stride)])
+//@   at loop1.end: assert fanC(cells(pts), off(pts), stride, calc.basePt[0], calc.basePt[1], 1, m) == fanC(cells(pts), off(pts), stride, calc.basePt[0], calc.basePt[1], 1, m - 1) + ((pts[mul(m, stride) - stride] - calc.basePt[0]) * (pts[mul(m, stride) + 1] - calc.basePt[1]) - (pts[mul(m, stride)] - calc.basePt[0]) * (pts[mul(m, stride) - stride + 1] - calc.basePt[1])) * (calc.basePt[1] + pts[mul(m, stride) - stride + 1] + pts[mul(m, stride) + 1])
 //@   loop 1:
 //@     ghost m int = 0 step m + 1
 //@     ghost sg float64 = (isPositiveArea ? 0.0 - 1.0 : 1.0) step sg
